@@ -942,12 +942,12 @@ pub fn run(tier: Tier, replay_file: Option<&str>) -> i32 {
         json!({
             "tier": tier.name(),
             "authz": {"max_policies": tier.pick(2, 3), "shapes": 5, "spellings": tier.pick("1 rotating (map shapes)", "3 (map shapes)"), "schema": ["none", "json", "cedar"], "validateRequest": ["absent", "true", "false"], "data_forms": "explicit; schema-implicit when a schema is given", "requests": 6},
-            "validate": "policy table x 2 schema syntaxes x {settings absent, strict, permissive, partial} x 2 policy shapes",
-            "format": "text table x {defaults, 4 configs}",
-            "check_parse": "tables of policy sets, schemas, entities, contexts, scope variables",
-            "convert": "policy / template / schema tables",
-            "cache": {"names": ["A", "B"], "psets": ["P1", "P2", "unparseable"], "schemas": ["S1", "S2", "unparseable"], "requests": 4, "bfs": "fixpoint over (model, observation) states, every op in every state", "unpruned_sequence_length": tier.pick(3, 5)},
-            "cli": {"cases": "see cli_cases"},
+            "validate": format!("50 policy sets (40 single policies: valid / ill-typed / impossible / warning, 4 template+link pairs, 4 multi-policy sets, unparseable, empty) x 4 schemas (W in both syntaxes, a second schema, an unparseable one) x {{settings absent, strict, permissive, partial}} x {} policy shapes", tier.pick(2, 3)),
+            "format": "51 texts x {defaults, 4 (lineWidth, indentWidth) configs}",
+            "check_parse": "46 policy-set documents, 26 schemas, 24 entity documents x {no schema, W cedar, W json, unparseable schema}, 32 contexts x the same 4, 72 scope-variable triples",
+            "convert": "94 static + 22 template sources (text and EST) through policy/template_to_json/text, 26 schemas through schema_to_text/json, 9 policy-set texts x 3 separators through policy_set_text_to_parts",
+            "cache": {"names": ["A", "B"], "psets": ["P1", "P2", "unparseable"], "schemas": ["S1", "S2", "unparseable"], "requests": 4, "bfs": "fixpoint over (model, observation) states, every op in every state", "unpruned_sequence_length": tier.pick(3, 4)},
+            "cli": {"grid_cases": tier.pick(90, 373), "commands": ["authorize", "validate", "translate-policy", "translate-schema", "format --check"], "note": "deterministic grid (parameters rotate over the policy-set tuples), counts per command in cli_cases"},
         }),
         &[
             "the oracle for FFI calls is cedar's own plain Rust API (Policy::parse / from_json with explicit ids, Template::parse + link, Schema::from_*, Entities::from_json_value, Context::from_json_value, Request::new, Authorizer, Validator, formatter), as DESIGN C19 prescribes; authorization answers are additionally compared with the reference authorizer of refsem",
